@@ -6,12 +6,17 @@ set -u
 id=$1; shift
 checks=${@:-$id}
 root=${SEEDROOT:-/tmp/seed-}$id; src=$root/_seed
+# default: the recorded copy under /verif/seeded/<id>
+if [ ! -d "$src" ]; then src=/verif/seeded/$id; root=""; fi
 export GOFLAGS=-mod=mod GOPROXY=off GOSUMDB=off GOTOOLCHAIN=local
 wt=/root/scratch/sv-$id
 rm -rf $wt; git -C /repo worktree prune
 git -C /repo worktree add -q --detach $wt HEAD || exit 2
-demo=$(cd $root && find pkg -name zz_seed_demo_test.go | head -1)
-demodir=$(dirname $demo)
+if [ -n "$root" ]; then
+  demo=$(cd $root && find pkg -name zz_seed_demo_test.go | head -1); demodir=$(dirname $demo)
+else
+  demodir=$(python3 -c "import json;print(json.load(open('$src/meta.json'))['demo_package_dir'])")
+fi
 echo "== $id: patch touches: $(grep '^+++ ' $src/patch.diff | tr '\n' ' ')  demo in $demodir"
 ( cd $wt && git apply $src/patch.diff ) || { echo "PATCH DOES NOT APPLY"; exit 2; }
 cp $src/zz_seed_demo_test.go $wt/$demodir/zz_seed_demo_test.go
